@@ -80,11 +80,14 @@ META = {
     ],
     "outside_claim": [
         "NaN, infinities and inputs whose scaled value overflows",
-        "n_frac < 0 or n_frac > n_bits; n_bits > 24 other than 32 and 64 "
-        "for the scalar functions",
-        "array shape, strides and non-float64 input dtypes: one element "
-        "stands for all (element-wise ufuncs); shape (2,) and (2,1) are "
-        "only exercised in the concrete replays",
+        "n_frac < 0 other than the round-trip units S8.-2, U16.-3, S16.-1; "
+        "n_frac > n_bits; n_bits > 24 other than 32 and 64 for the scalar "
+        "functions",
+        "array shape, strides and non-float64 input dtypes in the SOLVER's "
+        "claim: one element stands for all (element-wise ufuncs); eight "
+        "memory layouts and int8/uint8/int16/int32/int64/float32 inputs are "
+        "compared concretely (real array converter against real scalar "
+        "converter on boundary values) before the translation is used",
         "what the C cast does on an out-of-range double is undefined "
         "behaviour: the check proves the cast never sees one rather than "
         "modelling the platform",
